@@ -82,7 +82,7 @@ def shape_cli(fmt, mapping, copier, defines, expected):
 def shape_symfile(B):
     res = shapes.resolver(B)
     root = B.I.hget(B.st, res).fields["current_scope"]
-    B.I.hmut(B.st, B.I.hget(B.st, root).fields["labels"]).items.update({"start": 0x008000, "far": 0xC12345})
+    B.I.hmut(B.st, B.I.hget(B.st, root).fields["labels"]).items.update({"start": 0x008000, "far": 0xC12345, "origin": 0})  # a label at address 0 (defined before any `*=`) is listed like any other
     inner = shapes.scope(B, res, root)
     B.I.hmut(B.st, B.I.hget(B.st, inner).fields["labels"]).items.update({"start": 0x018002})
     loop = shapes.scope(B, res, root, cls="a816.symbols.InternalScope")
@@ -91,7 +91,7 @@ def shape_symfile(B):
     B.I.hmut(B.st, B.I.hget(B.st, named).fields["labels"]).items.update({"l": 0x7E0000 + 0x12})
     B.I.hmut(B.st, B.I.hget(B.st, res).fields["scopes"]).items.extend([inner, loop, named])
     prog = B.inst("a816.program.Program", resolver=res, logger=None, dump_symbols=False, parser=None, label_pass_addresses=B.list([]))
-    exp = "[labels]\n" + " 0:8000 start\nc1:2345 far\n 1:8002 start\n7e:  12 l\n"
+    exp = "[labels]\n" + " 0:8000 start\nc1:2345 far\n 0:   0 origin\n 1:8002 start\n7e:  12 l\n"
     return {"program": prog, "expected": exp}
 
 
